@@ -347,6 +347,26 @@ def worker_main(prop: str, tier: str, shard: int, nshards: int, outdir: str, see
     return 0 if status == "ok" else 2
 
 
+@contextlib.contextmanager
+def quiet_fds():
+    """Silence OS-level stdout/stderr (pygmo and tqdm print from C / to stderr) while code under test runs in the parent."""
+    sys.stdout.flush()
+    sys.stderr.flush()
+    saved = os.dup(1), os.dup(2)
+    devnull = os.open(os.devnull, os.O_WRONLY)
+    try:
+        os.dup2(devnull, 1)
+        os.dup2(devnull, 2)
+        yield
+    finally:
+        sys.stdout.flush()
+        sys.stderr.flush()
+        os.dup2(saved[0], 1)
+        os.dup2(saved[1], 2)
+        for fd in (*saved, devnull):
+            os.close(fd)
+
+
 # --------------------------------------------------------------------------- shrinking
 def shrink_case(module, part_name: str, clause: str, case, known_key, budget_s: float = 45.0):
     """Greedy structural delta-debugging over the JSON case (bypasses Hypothesis).
@@ -546,7 +566,8 @@ def parent_main(prop: str, tier: str, nshards: int | None = None) -> int:
                 data = json.loads(rp.read_text())
                 if data["part"] not in module.PARTS:
                     continue
-                ws.run_case(data["part"], module.PARTS[data["part"]], data["case"])
+                with quiet_fds():
+                    ws.run_case(data["part"], module.PARTS[data["part"]], data["case"])
                 replayed += 1
             evaluations += ws.evaluations
             nontrivial |= ws.nontrivial
@@ -567,8 +588,9 @@ def parent_main(prop: str, tier: str, nshards: int | None = None) -> int:
             continue
         case, ok = f["case"], True
         try:
-            case, ok = shrink_case(module, f["part"], f["clause"], f["case"], f.get("known_key"),
-                                   budget_s=30.0 if tier == "quick" else 240.0)
+            with quiet_fds():
+                case, ok = shrink_case(module, f["part"], f["clause"], f["case"], f.get("known_key"),
+                                       budget_s=30.0 if tier == "quick" else 240.0)
         except Exception:  # noqa: BLE001
             pass
         replay_dir.mkdir(parents=True, exist_ok=True)
